@@ -79,11 +79,70 @@ func (me *monoEngine) isMaxLike(f *ssa.Function) bool {
 
 // derivesFromField: v's backward slice contains a load of the given struct field.
 func derivesFromField(v ssa.Value, f *types.Var) bool {
+	return derivesFromFieldDepth(v, f, 0)
+}
+
+// derivesFromFieldDepth: also through the parameter of an unexported helper, when every call of that helper in
+// its package hands in a value that derives from the field (`l.advanceClock(heads)` with heads read from l.heads).
+func derivesFromFieldDepth(v ssa.Value, f *types.Var, depth int) bool {
+	var params []*ssa.Parameter
 	for x := range backSlice(v, nil) {
 		if u, ok := x.(*ssa.UnOp); ok && u.Op == token.MUL {
 			if fv, _ := fieldOf(u.X); fv == f {
 				return true
 			}
+		}
+		if q, ok := x.(*ssa.Parameter); ok && depth < 2 {
+			params = append(params, q)
+		}
+	}
+	for _, q := range params {
+		g := q.Parent()
+		if g == nil || g.Pkg == nil || g.Object() == nil || g.Object().Exported() {
+			continue
+		}
+		idx := -1
+		for i, pq := range g.Params {
+			if pq == q {
+				idx = i
+			}
+		}
+		ncall, all := 0, true
+		for _, mem := range g.Pkg.Members {
+			caller, ok := mem.(*ssa.Function)
+			var fns []*ssa.Function
+			if ok {
+				fns = append(fns, caller)
+			}
+			if tp, isT := mem.(*ssa.Type); isT {
+				for _, ptr := range []bool{false, true} {
+					t := tp.Type()
+					if ptr {
+						t = types.NewPointer(t)
+					}
+					ms := g.Prog.MethodSets.MethodSet(t)
+					for i := 0; i < ms.Len(); i++ {
+						if mf := g.Prog.MethodValue(ms.At(i)); mf != nil {
+							fns = append(fns, mf)
+						}
+					}
+				}
+			}
+			for _, cf := range fns {
+				allInstrs(cf, true, func(ins ssa.Instruction) {
+					call, isCall := ins.(*ssa.Call)
+					if !isCall || call.Call.StaticCallee() != g || idx < 0 || idx >= len(call.Call.Args) {
+						return
+					}
+					ncall++
+					if !derivesFromFieldDepth(call.Call.Args[idx], f, depth+1) {
+						all = false
+					}
+				})
+			}
+		}
+		if ncall > 0 && all {
+			return true
 		}
 	}
 	return false
